@@ -1,6 +1,6 @@
 """C02 — Memory limit stops runaway stack growth, never stops bounded scripts."""
 
-from ..rules import emitrules, limits, recursion
+from ..rules import emitrules, limits, pairing, recursion
 
 
 def run(ctx, rep):
@@ -26,6 +26,7 @@ def run(ctx, rep):
             "C02-R10": "per-function compiler state (including flags that tell the VM what a function can leave behind) is saved, reset and restored by both function compilers",
         },
     )
+    pairing.rule_undo_only_what_was_done(ctx, rep, "C02-R12")
     rep.undecided += [
         "heap growth (out of the property's scope)",
         "the numeric relation between memory_limit and the depth at which the error fires",
